@@ -486,6 +486,13 @@ func (ev *Eval) equal(a, b *Val) string {
 			return and(cs...)
 		}
 	}
+	if (a.K == KStruct || a.K == KTuple) && a.K == b.K && len(a.Fs) == len(b.Fs) {
+		var cs []string
+		for i := range a.Fs {
+			cs = append(cs, ev.equal(a.Fs[i], b.Fs[i]))
+		}
+		return and(cs...)
+	}
 	if a.K == KSlice && b.K == KSlice && !isNilVal(a) && !isNilVal(b) {
 		// in contracts == on slices means "the same slice" (same backing array, window)
 		return and(eq(a.Fs[0].T, b.Fs[0].T), eq(a.Fs[1].T, b.Fs[1].T), eq(a.Fs[2].T, b.Fs[2].T))
